@@ -290,6 +290,38 @@ Definition split_round_trip (send : lo_request -> sub_result) (r : lo_request) :
   let messages := listoffsets_split r in
   listoffsets_merge messages (await_all send messages).
 
+(* protocol/listgroups, protocol/describegroups, protocol/describeconfigs: Response.Merge of
+   the fan-out APIs (ListGroups: one request per broker; DescribeGroups: one per group, sent to
+   its coordinator; DescribeConfigs: one per broker resource plus one for the topic resources).
+   The results are visited in request order; the first failed one fails the whole call with its
+   error, otherwise the items of all parts are appended in order (ListGroups labels the groups of
+   result i with the broker of request i: see label_part). *)
+Inductive part_result (A : Type) := PartOk (items : list A) | PartErr (e : Z).
+Arguments PartOk {A} items.
+Arguments PartErr {A} e.
+Inductive fan_result (A : Type) := FanOk (items : list A) | FanErr (e : Z).
+Arguments FanOk {A} items.
+Arguments FanErr {A} e.
+
+Fixpoint concat_merge_from {A} (results : list (part_result A)) (acc : list A) {struct results} : fan_result A :=
+  match results with
+  | [] => FanOk acc
+  | PartOk l :: r => concat_merge_from r (acc ++ l)
+  | PartErr e :: _ => FanErr e
+  end.
+
+Definition concat_merge {A} (results : list (part_result A)) : fan_result A := concat_merge_from results [].
+
+Definition label_part {A B} (b : B) (r : part_result A) : part_result (A * B) :=
+  match r with
+  | PartOk l => PartOk (map (fun g => (g, b)) l)
+  | PartErr e => PartErr e
+  end.
+
+(* ListGroups: requests[i] carries the broker id the groups of results[i] are attributed to *)
+Definition listgroups_merge {A} (brokers : list Z) (results : list (part_result A)) : fan_result (A * Z) :=
+  concat_merge (map (fun br => label_part (fst br) (snd br)) (combine brokers results)).
+
 (* ------------------------------------------------------------------------- *)
 (* conn.go: readOffset's parser of the list-offsets v1 response                *)
 
